@@ -329,6 +329,36 @@ func liftedSortFlag(seq dag.Seq) string {
 	return ""
 }
 
+// joinDeclaredDesc: a join whose input the optimizer declared sorted descending (LeftDir /
+// RightDir < 0), so that the join skips its own sort of that side.
+func joinDeclaredDesc(seq dag.Seq) bool {
+	for _, op := range seq {
+		switch op := op.(type) {
+		case *dag.Join:
+			if op.LeftDir < 0 || op.RightDir < 0 {
+				return true
+			}
+		case *dag.Fork:
+			for _, p := range op.Paths {
+				if joinDeclaredDesc(p) {
+					return true
+				}
+			}
+		case *dag.Scatter:
+			for _, p := range op.Paths {
+				if joinDeclaredDesc(p) {
+					return true
+				}
+			}
+		case *dag.Scope:
+			if joinDeclaredDesc(op.Body) {
+				return true
+			}
+		}
+	}
+	return false
+}
+
 // sortedSummarizeBelowFanIn: a summarize told that its input is sorted (InputSortDir) although
 // it reads the unordered combine of several parallel legs.
 func sortedSummarizeBelowFanIn(seq dag.Seq) bool {
@@ -470,6 +500,9 @@ func (c *c07Case) classify(l *TLake, o c07Outcome) string {
 	}
 	if sortedSummarizeBelowFanIn(o.Op.After) {
 		return "C07:sortkey:fanin-combine"
+	}
+	if joinDeclaredDesc(o.Op.After) {
+		return "C07:join:declared-desc-nulls"
 	}
 	if before != nil {
 		if r := findLifted(before, func(next dag.Op) string {
